@@ -228,6 +228,7 @@ structure Inv (H : Key → Nat → Nat) (kh : KH) (keys : List Key) : Prop where
   kalloc_pos : 0 < kh.kalloc
   salloc_pos : 0 < kh.salloc
   sn_le : kh.smem.size ≤ kh.salloc
+  sn_eq : kh.smem.size = (keys.map (fun k => k.length + 1)).sum
   keyAt : ∀ (i : Nat) (k : Key), keys[i]? = some k → ∃ off, kh.keyOffset[i]? = some off ∧ KeyAt kh.smem off k
   nodup : keys.Nodup
   linked : Linked H keys kh.hashsize kh.hashtable kh.nxt kh.nkeys
@@ -245,6 +246,7 @@ theorem inv_create (H : Key → Nat → Nat) (size kalloc salloc : Nat) (h1 : 0 
   kalloc_pos := h2
   salloc_pos := h3
   sn_le := by simp [create]
+  sn_eq := by simp [create]
   keyAt := by intro i k h; simp at h
   nodup := List.nodup_nil
   linked := linked_empty H [] size _
@@ -356,11 +358,16 @@ theorem rehashLoop_spec (H : Key → Nat → Nat) (hH : HashOK H) (keys : List K
     · have : i + (c + 1) = i + 1 + c := by omega
       rw [this]; exact h3
 
-theorem upsize_spec {H : Key → Nat → Nat} {kh : KH} {keys : List Key} (hi : Inv H kh keys) (hH : HashOK H) :
-    ∃ kh', upsize H kh = some kh' ∧ Inv H kh' keys := by
+/-- what `key_upsize` leaves alone, and how far the table size can go -/
+def SameAlloc (kh kh' : KH) : Prop :=
+  kh'.salloc = kh.salloc ∧ kh'.kalloc = kh.kalloc ∧ kh'.smem = kh.smem ∧ kh'.nkeys = kh.nkeys ∧
+  (kh'.hashsize = kh.hashsize ∨ (kh.hashsize < 2^28 ∧ kh'.hashsize = kh.hashsize * 8))
+
+theorem upsize_spec_full {H : Key → Nat → Nat} {kh : KH} {keys : List Key} (hi : Inv H kh keys) (hH : HashOK H) :
+    ∃ kh', upsize H kh = some kh' ∧ Inv H kh' keys ∧ SameAlloc kh kh' := by
   unfold upsize
   by_cases hbig : kh.hashsize ≥ 2^28
-  · exact ⟨kh, by simp [hbig], hi⟩
+  · exact ⟨kh, by simp [hbig], hi, rfl, rfl, rfl, rfl, Or.inl rfl⟩
   · simp only [hbig, ↓reduceIte]
     have hnk := hi.nkeys
     obtain ⟨ht, nx, h1, h2, h3⟩ := rehashLoop_spec H hH keys kh.nkeys 0
@@ -368,7 +375,7 @@ theorem upsize_spec {H : Key → Nat → Nat} {kh : KH} {keys : List Key} (hi : 
       (by omega) (by have := hi.size_pos; show 0 < kh.hashsize * 8; omega) hi.keyAt
       (by show keys.length ≤ kh.nxt.size; rw [hi.nxt_size, ← hi.nkeys]; exact hi.kalloc_ge)
       (linked_empty H keys _ _)
-    refine ⟨_, h1, ?_⟩
+    refine ⟨_, h1, ?_, rfl, rfl, rfl, rfl, Or.inr ⟨by omega, rfl⟩⟩
     exact {
       nkeys := hi.nkeys
       size_pos := by have := hi.size_pos; show 0 < kh.hashsize * 8; omega
@@ -378,9 +385,30 @@ theorem upsize_spec {H : Key → Nat → Nat} {kh : KH} {keys : List Key} (hi : 
       kalloc_pos := hi.kalloc_pos
       salloc_pos := hi.salloc_pos
       sn_le := hi.sn_le
+      sn_eq := hi.sn_eq
       keyAt := hi.keyAt
       nodup := hi.nodup
       linked := by simpa using h3 }
+
+theorem upsize_spec {H : Key → Nat → Nat} {kh : KH} {keys : List Key} (hi : Inv H kh keys) (hH : HashOK H) :
+    ∃ kh', upsize H kh = some kh' ∧ Inv H kh' keys := by
+  obtain ⟨kh', h1, h2, _⟩ := upsize_spec_full hi hH
+  exact ⟨kh', h1, h2⟩
+
+/-- the doubling loop never overshoots: the result is the old allocation, or less than twice what is needed -/
+theorem growTo_le (need f a r : Nat) (h : growTo need f a = some r) : r = a ∨ r < 2 * need := by
+  induction f generalizing a with
+  | zero =>
+    by_cases hn : need ≤ a
+    · simp [growTo, hn] at h; exact Or.inl h.symm
+    · simp [growTo, hn] at h
+  | succ f ih =>
+    by_cases hn : need ≤ a
+    · simp [growTo, hn] at h; exact Or.inl h.symm
+    · simp only [growTo, hn, ↓reduceIte] at h
+      rcases ih (2*a) h with h1 | h1
+      · right; omega
+      · exact Or.inr h1
 
 theorem growTo_spec (need f a : Nat) (ha : 1 ≤ a) (hf : need ≤ a + f) :
     ∃ r, growTo need f a = some r ∧ need ≤ r ∧ a ≤ r := by
@@ -443,6 +471,7 @@ theorem growK_inv {H : Key → Nat → Nat} {kh : KH} {keys : List Key} (hi : In
       kalloc_pos := by show 0 < kh.kalloc * 2; omega
       salloc_pos := hi.salloc_pos
       sn_le := hi.sn_le
+      sn_eq := hi.sn_eq
       keyAt := by
         intro i k hk
         obtain ⟨off, ho, hka⟩ := hi.keyAt i k hk
@@ -477,6 +506,9 @@ theorem linkNew_inv {H : Key → Nat → Nat} {kh : KH} {keys : List Key} (hi : 
   kalloc_pos := hi.kalloc_pos
   salloc_pos := by show 0 < salloc; omega
   sn_le := by show (kh.smem ++ key.toArray ++ #[0]).size ≤ salloc; simp; omega
+  sn_eq := by
+    show (kh.smem ++ key.toArray ++ #[0]).size = ((keys ++ [key]).map (fun k => k.length + 1)).sum
+    simp [hi.sn_eq]
   keyAt := by
     intro i k hk
     show ∃ off, (kh.keyOffset.set! kh.nkeys kh.smem.size)[i]? = some off ∧ KeyAt (kh.smem ++ key.toArray ++ #[0]) off k
@@ -507,10 +539,29 @@ theorem linkNew_inv {H : Key → Nat → Nat} {kh : KH} {keys : List Key} (hi : 
     have hl := linked_keys_append hi.linked (by rw [hi.nkeys]; exact Nat.le_refl _) [key]
     exact linked_step hl key (by rw [hi.nkeys]; simp) head hh (by rw [hi.nxt_size]; exact hlt)
 
-theorem store_spec {H : Key → Nat → Nat} {kh : KH} {keys : List Key} (hi : Inv H kh keys) (hH : HashOK H) (key : Key)
+theorem growK_fields (kh : KH) :
+    (growK kh).salloc = kh.salloc ∧ (growK kh).smem = kh.smem ∧
+    ((growK kh).kalloc = kh.kalloc ∨ ((growK kh).kalloc = 2 * kh.nkeys ∧ kh.nkeys = kh.kalloc)) := by
+  unfold growK
+  by_cases he : kh.nkeys = kh.kalloc
+  · have e : (kh.nkeys == kh.kalloc) = true := by simpa using he
+    rw [if_pos e]
+    exact ⟨rfl, rfl, Or.inr ⟨by show kh.kalloc * 2 = 2 * kh.nkeys; omega, he⟩⟩
+  · have e : (kh.nkeys == kh.kalloc) = false := by simpa using he
+    rw [if_neg (by simp [e])]
+    exact ⟨rfl, rfl, Or.inl rfl⟩
+
+/-- how the allocations and the table size of a Store's result relate to the old ones: they stay, or are less than twice
+    what the new content needs; the table grows 8-fold only from below `2^28` -/
+def AllocStep (kh kh' : KH) (key : Key) : Prop :=
+  (kh'.salloc = kh.salloc ∨ kh'.salloc < 2 * (kh.smem.size + key.length + 1)) ∧
+  (kh'.kalloc = kh.kalloc ∨ kh'.kalloc = 2 * kh.nkeys) ∧
+  (kh'.hashsize = kh.hashsize ∨ (kh.hashsize < 2^28 ∧ kh'.hashsize = kh.hashsize * 8))
+
+theorem store_spec_full {H : Key → Nat → Nat} {kh : KH} {keys : List Key} (hi : Inv H kh keys) (hH : HashOK H) (key : Key)
     (h0 : (0 : UInt8) ∉ key) :
     (key ∈ keys → store H kh key = some (kh, .edup, keys.idxOf key)) ∧
-    (key ∉ keys → ∃ kh', store H kh key = some (kh', .ok, keys.length) ∧ Inv H kh' (keys ++ [key])) := by
+    (key ∉ keys → ∃ kh', store H kh key = some (kh', .ok, keys.length) ∧ Inv H kh' (keys ++ [key]) ∧ AllocStep kh kh' key) := by
   obtain ⟨head, hh, hw⟩ := walk_inv hi hH key
   constructor
   · intro hm
@@ -523,6 +574,13 @@ theorem store_spec {H : Key → Nat → Nat} {kh : KH} {keys : List Key} (hi : I
     obtain ⟨hi1, hlt, hsz, hht, hnk⟩ := growK_inv hi
     obtain ⟨salloc, hg, hneed, _⟩ := growTo_spec ((growK kh).smem.size + key.length + 1)
       ((growK kh).smem.size + key.length + 1) (growK kh).salloc hi1.salloc_pos (by omega)
+    have hle := growTo_le _ _ _ _ hg
+    obtain ⟨gf1, gf2, gf3⟩ := growK_fields kh
+    rw [gf1, gf2] at hle
+    have hka : (growK kh).kalloc = kh.kalloc ∨ (growK kh).kalloc = 2 * kh.nkeys := by
+      rcases gf3 with h | ⟨h, _⟩
+      · exact Or.inl h
+      · exact Or.inr h
     simp only [hg]
     have hc : (growK kh).nkeys < (growK kh).keyOffset.size ∧ (growK kh).nkeys < (growK kh).nxt.size ∧
         (growK kh).smem.size + key.length + 1 ≤ salloc := by
@@ -533,9 +591,23 @@ theorem store_spec {H : Key → Nat → Nat} {kh : KH} {keys : List Key} (hi : I
     have hidx : (growK kh).nkeys = keys.length := by rw [hnk]; exact hi.nkeys
     rw [hidx]
     split
-    · obtain ⟨kh', hu, hi3⟩ := upsize_spec hi2 hH
-      exact ⟨kh', by simp only [hu], hi3⟩
-    · exact ⟨_, rfl, hi2⟩
+    · obtain ⟨kh', hu, hi3, a1, a2, _, _, a5⟩ := upsize_spec_full hi2 hH
+      refine ⟨kh', by simp only [hu], hi3, ?_, ?_, ?_⟩
+      · rw [a1]; exact hle
+      · rw [a2]; exact hka
+      · rcases a5 with h | ⟨h1, h2⟩
+        · left; rw [h]; exact hsz
+        · right; exact ⟨by rw [← hsz]; exact h1, by rw [h2]; congr 1⟩
+    · exact ⟨_, rfl, hi2, hle, hka, Or.inl hsz⟩
+
+theorem store_spec {H : Key → Nat → Nat} {kh : KH} {keys : List Key} (hi : Inv H kh keys) (hH : HashOK H) (key : Key)
+    (h0 : (0 : UInt8) ∉ key) :
+    (key ∈ keys → store H kh key = some (kh, .edup, keys.idxOf key)) ∧
+    (key ∉ keys → ∃ kh', store H kh key = some (kh', .ok, keys.length) ∧ Inv H kh' (keys ++ [key])) := by
+  obtain ⟨h1, h2⟩ := store_spec_full hi hH key h0
+  refine ⟨h1, fun hm => ?_⟩
+  obtain ⟨kh', a, b, _⟩ := h2 hm
+  exact ⟨kh', a, b⟩
 
 /-! ## Reuse, Clone -/
 theorem reuse_inv {H : Key → Nat → Nat} {kh : KH} {keys : List Key} (hi : Inv H kh keys) : Inv H (reuse kh) [] where
@@ -547,6 +619,7 @@ theorem reuse_inv {H : Key → Nat → Nat} {kh : KH} {keys : List Key} (hi : In
   kalloc_pos := hi.kalloc_pos
   salloc_pos := hi.salloc_pos
   sn_le := by show (#[] : Array UInt8).size ≤ kh.salloc; simp
+  sn_eq := by show (#[] : Array UInt8).size = _; simp
   keyAt := by intro i k h; simp at h
   nodup := List.nodup_nil
   linked := linked_empty H [] _ _
@@ -566,6 +639,7 @@ theorem clone_inv {H : Key → Nat → Nat} {kh : KH} {keys : List Key} (hi : In
   kalloc_pos := hi.kalloc_pos
   salloc_pos := hi.salloc_pos
   sn_le := hi.sn_le
+  sn_eq := hi.sn_eq
   keyAt := by
     intro i k hk
     obtain ⟨off, ho, hka⟩ := hi.keyAt i k hk
